@@ -977,7 +977,36 @@ def r16(ctx):
         raise AnalysisBroken('C14.R16: no deferral of a sequence found')
 
 
+def r20(ctx):
+    ctx.mark('enhanced-send', 'C14.R20')
+    ctx.rule('C14.R20', 'every symbol ebusd sends through an enhanced adapter is encoded as the protocol defines: in '
+             'EnhancedDevice::send every write to the transport hands over the two-byte SEND sequence (length 2), or - the '
+             'short form of docs/enhanced_proto.md - the symbol itself as one byte under a test that it is below 0x80 '
+             '(value < 0x80 or (value & 0x80) == 0); 0x80 written raw is a second byte without a first one, the adapter drops '
+             'it and the symbol never reaches the bus', minimum=1)
+    fb = ctx.fb
+    fn = fb.fn('ebusd::EnhancedDevice::send')
+    ctx.touch(fn)
+    val = fn.P(0)
+    n = 0
+    for c in fn.calls('write'):
+        v = fn.nodes[c]
+        if len(v.get('args', [])) < 2:
+            continue
+        n += 1
+        ln = fn.val(v['args'][1])
+        if ln == 2:
+            ctx.ob('C14.R20', fn, c, True, 'write of a two-byte sequence', 'length 2')
+            continue
+        ok = ln == 1 and fn.needs_one_of(c, [('(%s < #128)' % val, True), ('(%s <= #127)' % val, True), ('(%s & #128)' % val, False),
+                                             ('((%s & #128) == #0)' % val, True)])
+        ctx.ob('C14.R20', fn, c, bool(ok), 'write of %s byte(s)' % ln, 'a single byte only for a symbol below 0x80: %s' % bool(ok))
+    if n < 1:
+        raise AnalysisBroken('C14.R20: no transport write found in EnhancedDevice::send')
+
+
 def run(ctx):
+    r20(ctx)
     import rules.common as _cms
     ctx.rule('C14.R19', 'a failure reported as -1 stays negative: in the sources of this property the result of a POSIX call that reports errors as -1 (read, write, recv, send, poll, open, socket, ioctl, ...) is not converted to an unsigned type where it is stored or tested (equality with the requested length excepted) - held in a size_t a failed read counts as SIZE_MAX received bytes, the buffered length runs past the 32 byte receive buffer and the decoder reads far beyond it', minimum=8)
     _cms.signed_result_rule(ctx, 'C14.R19', lambda f: f.relfile.startswith(('src/lib/ebus/transport.',)), 8)
